@@ -95,6 +95,13 @@ def is_fin(v):
     return isinstance(v, Fraction)
 
 
+class NegZero(Fraction):
+    """-0.0: numerically Fraction(0) everywhere; only its C spelling differs (the Lean model identifies it with +0)."""
+
+
+NZERO = NegZero(0)
+
+
 def rn(fmt, q):
     """Round-to-nearest-even of the rational q into format fmt; Fraction or an infinity."""
     p, emax = FMT[fmt]
@@ -223,6 +230,8 @@ def to_hex(v):
         return "nan"
     if v in (PINF, NINF):
         return v
+    if isinstance(v, NegZero):
+        return "-0.0"
     m, e = dyadic(v)
     return ("-" if m < 0 else "") + "0x%xp%d" % (abs(m), e)
 
@@ -429,13 +438,14 @@ def round_oracle(fn, rr, xq, q, k, got):
     E = xq * q * PI ** k
     if got.denominator != 1:
         return "bad", "result %s is not integral" % got
-    if E != 0 and (abs(E) < min_normal(rr) * 4 or abs(E) > max_finite(rr) / 4):
-        return "skip", "range"
+    if abs(E) > max_finite(rr) / 4:
+        return "skip", "range"          # within a factor 4 of overflow: finite-or-inf depends on the individual roundings
     r = got.numerator
     f = RFN[fn]
     if conversion_is_exact(rr, xq, q, k):
         return ("ok", "exact") if r == f(E) else ("bad", "exact conversion: want %d" % f(E))
-    d = abs(E) * Fraction(4, 1 << p)
+    # relative error of three roundings, plus two quanta of the subnormal range (gradual underflow)
+    d = abs(E) * Fraction(4, 1 << p) + Fraction(2) ** ((1 - emax) - p + 2)
     lo_, hi_ = f(E - d), f(E + d)
     return ("ok", "tol") if lo_ <= r <= hi_ else ("bad", "want in [%d, %d] (exact value %s)" % (lo_, hi_, float(E)))
 
@@ -936,10 +946,18 @@ struct SpellInst {
 
 // ---------------------------------------------------------------------------------------------
 // abs / copysign / isnan   argv = (x s)*
-template <class R, class U>
+template <class R, class U, bool Abs> struct AbsPart {
+    static void run(au::Quantity<U, R> q, R x, std::string& o) {
+        static_assert(std::is_same<decltype(au::abs(q)), au::Quantity<U, decltype(std::abs(R{}))>>::value, "abs unit");
+        putc(o, au::abs(q).in(U{})); putc(o, std::abs(x));
+    }
+};
+template <class R, class U> struct AbsPart<R, U, false> {
+    static void run(au::Quantity<U, R>, R, std::string& o) { o += "0,0,"; }
+};
+template <class R, class U, bool Abs = true>
 struct UnaryInst {
     using Q = au::Quantity<U, R>;
-    static_assert(std::is_same<decltype(au::abs(Q{})), au::Quantity<U, decltype(std::abs(R{}))>>::value, "abs unit");
     static_assert(std::is_same<decltype(au::copysign(Q{}, 1.0)), au::Quantity<U, decltype(std::copysign(R{}, 1.0))>>::value, "copysign unit");
     static_assert(std::is_same<decltype(au::copysign(1.0, Q{})), decltype(std::copysign(1.0, R{}))>::value, "copysign raw");
     static_assert(std::is_same<decltype(au::copysign(Q{}, Q{})), au::Quantity<U, decltype(std::copysign(R{}, R{}))>>::value, "copysign qq unit");
@@ -950,7 +968,7 @@ struct UnaryInst {
                 R x = IO<R>::parse(argv[i]); double s = IO<double>::parse(argv[i + 1]);
                 Q q = au::make_quantity<U>(x);
                 long u0 = g_ub;
-                putc(o, au::abs(q).in(U{})); putc(o, std::abs(x));
+                AbsPart<R, U, Abs>::run(q, x, o);
                 putc(o, au::copysign(q, s).in(U{})); putc(o, std::copysign(x, s));
                 putc(o, au::copysign(s, q)); putc(o, std::copysign(s, x));
                 R sr = static_cast<R>(s < 0 ? -1 : 1);
